@@ -175,3 +175,6 @@ Definition ok_fin (c : cfg) (es : list ev) (orecs : list seen5) : bool :=
   list_eqb seen_eqb (map seen (out (fst (fst (exec_f c es (init, [], false)))))) orecs.
 (* did the finish trigger fire at all in the model run (statistics) *)
 Definition fin_fired (c : cfg) (es : list ev) : bool := snd (exec_f c es (init, [], false)).
+
+(* record --disable: the run starts with tracing switched off *)
+Definition agree4off (p : case4) : bool := let '(a, b, c0, d) := p in agree_case_off a b c0 d.
